@@ -362,7 +362,25 @@ func ruleG6(p *Prog, r *Report) {
 			continue // order-relaxed by contract: applies results (and stops) in arrival order on purpose
 		}
 		n++
-		name := p.Name(launcher)
+		// a launcher that is the private half of one exported routine is named after that routine
+		// (the construct is "the parallel path of X", wherever its statements were moved)
+		owner := launcher
+		for d := 0; d < 3 && owner.Object() != nil && !owner.Object().Exported(); d++ {
+			tops := map[*ssa.Function]bool{}
+			for _, cs := range p.CallersOf(owner) {
+				tops[TopLevel(cs.Caller)] = true
+			}
+			if len(tops) != 1 {
+				break
+			}
+			for t := range tops {
+				owner = t
+			}
+		}
+		if owner.Object() == nil || !owner.Object().Exported() {
+			owner = launcher
+		}
+		name := p.Name(owner)
 		// receives from the result channel in the launcher
 		var bad ssa.Instruction
 		eachInstr(launcher, func(in ssa.Instruction) {
